@@ -61,6 +61,8 @@ fn main() {
 		"C06" => props::c06::run(&ctx, &mut rep),
 		"C07" => props::c07::run(&ctx, &mut rep),
 		"C09" => props::c09::run(&ctx, &mut rep),
+		"C11" => props::c11::run(&ctx, &mut rep),
+		"C13" => props::c13::run(&ctx, &mut rep),
 		"C14" => props::c14::run(&ctx, &mut rep),
 		"C15" => props::c15::run(&ctx, &mut rep),
 		"C19" => props::c19::run(&ctx, &mut rep),
